@@ -49,7 +49,8 @@ def spell(rng, target):
         return target + "/" + rng.choice(["c", "b", "q"]) + "/.."
     return target + "/%2e%2e"        # a segment that is literally named %2e%2e (sent as %252e%252e): no dot-dot
 
-RIGHTS = ["", "*", "/a/*", "/a/b", "/a/+", "/x", "/p/*", "/a/b;/x", "/+/b", "/a/b/+", "/a/b/*", " /a/b ; /p/q", "/A/B"]
+RIGHTS = ["", "*", "/a/*", "/a/b", "/a/+", "/x", "/p/*", "/a/b;/x", "/+/b", "/a/b/+", "/a/b/*", " /a/b ; /p/q", "/A/B",
+          "/a/b/+;/x/+", "/+/+/+", "/a/b/3;/p/q/2"]
 NAMES = ["bob", "ann", "eve", "root"]
 PWS = {"bob": "pw-bob", "ann": "pw-ann", "eve": "pw-eve", "root": "pw-root"}
 
@@ -190,7 +191,37 @@ class Gen:
             p = self.path()
             if kind == 1 and canon(p) in self.published:
                 kind = 0
-            self.ev.append([10, kind, p, self.tok(k), r.choice([0, 1, 2, 2, 7, 12])])
+            if r.random() < 0.4:
+                self.url_event(k)
+            else:
+                self.ev.append([10, kind, p, self.tok(k), r.choice([0, 1, 2, 2, 7, 12])])
+
+    def url_event(self, k):
+        """a GET of a spelled-out URL under /streams/: the interceptor and the handler each read the stream path, the
+        kind and the sequence number off it"""
+        r = self.rng
+        kind = r.choice([0, 1, 2, 2, 2])
+        p = self.path()
+        if kind == 1 and canon(p) in self.published:
+            kind = 0
+        x = r.random()
+        ext = [".flv", ".m3u8", ".ts"][kind]
+        if x < 0.45:
+            pass
+        elif x < 0.7:
+            ext = r.choice([ext.upper(), ext.capitalize(), ext[:2] + ext[2:].upper(), "." + ext[1:].title()])
+        elif x < 0.8:
+            ext = ext + r.choice(["/", ext, ".bak", ext.upper()])
+        elif x < 0.88:
+            ext = r.choice(["", ".", ".mp4", ".TS", ".ts"])
+        else:
+            ext = r.choice([".ts", ".TS", ".Ts"])       # a segment extension on whatever the path is
+        if ext.lower().startswith(".m3u8") and canon(p) in self.published:
+            ext = ".flv"
+        seq = ""
+        if kind == 2 or r.random() < 0.15:
+            seq = "/" + r.choice(["2", "3", "4", "3", "2", "4", "3", "+3", "03", "-3", "9", "1", "3x", "", "0x3", " 3"])
+        self.ev.append([12, "/streams" + p + seq + ext, self.tok(k)])
 
     def sc_api(self):
         r = self.rng
@@ -356,13 +387,13 @@ class Gen:
             r.choice(scs)()
         # client-chosen request headers: copies of the header the interceptors pass the verified name in
         for e in self.ev:
-            if e[0] in (7, 10, 11):
+            if e[0] in (7, 10, 11, 12):
                 e.append(self.forged() if r.random() < 0.4 else [])
         # tokens are referred to by issue index: only *successful* logins/refreshes issue, so the
         # generator's indices drift after a failed one; that is intended (it produces never-issued tokens)
         return [[users0, self.ext, WATCH], self.ev]
 
-REQUEST = {6, 7, 8, 9, 10, 11}
+REQUEST = {6, 7, 8, 9, 10, 11, 12}
 ADMIN = {0, 1, 2, 4}
 
 def nontrivial(c):
@@ -378,7 +409,7 @@ def nontrivial(c):
             return True
     return False
 
-KIND = {0: "save", 1: "del", 2: "tick", 3: "login", 4: "refresh", 5: "rtsp-open", 6: "rtsp", 7: "ws-open", 8: "ws-rtsp",
+KIND = {12: "url", 0: "save", 1: "del", 2: "tick", 3: "login", 4: "refresh", 5: "rtsp-open", 6: "rtsp", 7: "ws-open", 8: "ws-rtsp",
         9: "wsp", 10: "http", 11: "api"}
 
 def sig(c, e, o):
@@ -512,8 +543,22 @@ REGRESSIONS_RAW += [
              [7, 0, "/A/b", A(0), 0], [8, 0, 1, "/x"], [8, 0, 2, "/a/b/../../x"], [8, 0, 2, "/a/b/c/../d"], [7, 1, "/a/b ", A(0), 0], [7, 2, "/A/B", A(0), 2],
              [9, 2, 1, "/x"], [9, 2, 3, "/x"], [9, 2, 5, "/x"], [3, "eve", PWS["eve"]], [10, 0, "/a", A(1), 0], [10, 0, "/a/b", A(1), 0], [10, 0, "/a/b/..", A(1), 0]]],
 ]
+_env4 = [[_u("bob", 0, "", "/a/b"), _u("eve", 0, "", "/a/b/+"), _u("ann", 0, "", "/a/b/3;/p/q/2"), _u("root", 1, "", "")], ["/a/b", "/x"], WATCH]
+REGRESSIONS_RAW += [
+    # the interceptor and the handler read the URL separately: whatever the spelling of extension and sequence number,
+    # what is served is a segment / playlist / FLV of the stream the right was checked on
+    [_env4, [[3, "bob", PWS["bob"]], [3, "eve", PWS["eve"]], [3, "ann", PWS["ann"]],
+             [12, "/streams/a/b/3.ts", A(0)], [12, "/streams/a/b/3.ts", A(1)], [12, "/streams/a/b/3.TS", A(1)], [12, "/streams/a/b/3.Ts", A(2)],
+             [12, "/streams/a/b/3.tS", A(1)], [12, "/streams/a/b/3.TS", A(0)], [12, "/streams/a/b/+3.ts", A(0)], [12, "/streams/a/b/03.ts", A(0)],
+             [12, "/streams/a/b/-3.ts", A(0)], [12, "/streams/a/b/3.ts.ts", A(0)], [12, "/streams/a/b/3.ts/", A(1)], [12, "/streams/a/b/.ts", A(0)],
+             [12, "/streams/a/b.M3U8", A(0)], [12, "/streams/a/b.FLV", A(0)], [12, "/streams/a/b/3.M3U8", A(1)], [12, "/streams/a/b/3.flv", A(1)],
+             [12, "/streams/A/B.m3u8", A(0)], [12, "/streams/a/b.flv", A(0)], [12, "/streams/a/b/3.m3u8", A(0)], [12, "/streams/a/b/x/../3.ts", A(0)],
+             [12, "/streams/a/b/9.ts", A(0)], [12, "/streams/x/2.TS", A(2)], [12, "/streams/a/b/3.ts", [0]], [12, "/streams/a/b/3.TS", [3, "zz"]]]],
+]
 def _pad(c):
     for e in c[1]:
+        if e[0] == 12 and len(e) < 4:
+            e.append([])
         if e[0] in (7, 10) and len(e) < 6:
             e.append([])
         if e[0] == 11 and len(e) < 7:
